@@ -260,7 +260,7 @@ func (ex *Exec) libSummary(fr *Frame, st *State, fn *ssa.Function, args []Val, x
 		if riv, ok := args[0].(*IfaceV); ok && riv.Dyn != nil && riv.Dyn.String() == "*bytes.Reader" {
 			if r, ok := ex.rdrOf(st, riv.V); ok {
 				if buf, ok := args[1].(*SliceV); ok && !buf.Unk {
-					if r.Failed || ex.ReaderMayFail {
+					if r.Failed || (ex.ReaderMayFail && r.Source) {
 						// failure injection (C10.6): the source fails during this call — some bytes may have arrived, the
 						// source's own error is handed on (io.ReadFull passes every error but io.EOF through unchanged)
 						fs := st
@@ -270,7 +270,7 @@ func (ex *Exec) libSummary(fr *Frame, st *State, fn *ssa.Function, args []Val, x
 						}
 						for id, v := range fs.heap {
 							if rv, ok := v.(*RdrV); ok && rv == r {
-								fs.heap[id] = &RdrV{Src: r.Src, Pos: r.Pos, Failed: true}
+								fs.heap[id] = &RdrV{Src: r.Src, Pos: r.Pos, Failed: true, Source: r.Source}
 							}
 						}
 						got := fs.freshInt("n", 64, true)
@@ -333,7 +333,7 @@ func (ex *Exec) libSummary(fr *Frame, st *State, fn *ssa.Function, args []Val, x
 		st.Events = append(st.Events, Event{Kind: "source-read", Args: []Val{args[2]}, Pos: pos})
 		// exact over a tracked bytes.Reader when the destination is not tracked (e.g. io.Discard)
 		if riv, ok := args[1].(*IfaceV); ok && riv.Dyn != nil && riv.Dyn.String() == "*bytes.Reader" {
-			if r, ok := ex.rdrOf(st, riv.V); ok && (r.Failed || ex.ReaderMayFail) {
+			if r, ok := ex.rdrOf(st, riv.V); ok && (r.Failed || (ex.ReaderMayFail && r.Source)) {
 				// failure injection (C10.6): the copy stops with the source's error after an unknown number of bytes
 				fs := st
 				if !r.Failed {
@@ -342,7 +342,7 @@ func (ex *Exec) libSummary(fr *Frame, st *State, fn *ssa.Function, args []Val, x
 				}
 				for id, v := range fs.heap {
 					if rv, ok := v.(*RdrV); ok && rv == r {
-						fs.heap[id] = &RdrV{Src: r.Src, Pos: r.Pos, Failed: true}
+						fs.heap[id] = &RdrV{Src: r.Src, Pos: r.Pos, Failed: true, Source: r.Source}
 					}
 				}
 				got := fs.freshInt("copied", 64, true)
@@ -385,7 +385,7 @@ func (ex *Exec) libSummary(fr *Frame, st *State, fn *ssa.Function, args []Val, x
 							ex.bufAppendSegs(s, bb, segs)
 							for id, v := range s.heap {
 								if rv, ok := v.(*RdrV); ok && rv == rr {
-									s.heap[id] = &RdrV{Src: rv.Src, Pos: s.Arith(token.ADD, rv.Pos, cnt, pos), Failed: rv.Failed}
+									s.heap[id] = &RdrV{Src: rv.Src, Pos: s.Arith(token.ADD, rv.Pos, cnt, pos), Failed: rv.Failed, Source: rv.Source}
 								}
 							}
 							out = append(out, callRes{st: s, ret: &TupleV{Vs: []Val{cnt, errV}}})
@@ -409,7 +409,7 @@ func (ex *Exec) libSummary(fr *Frame, st *State, fn *ssa.Function, args []Val, x
 					adv := func(s *State, by *IntV) {
 						for id, v := range s.heap {
 							if rv, ok := v.(*RdrV); ok && rv.Src.Obj == r.Src.Obj && s.sameInt(rv.Pos, r.Pos) {
-								s.heap[id] = &RdrV{Src: rv.Src, Pos: s.Arith(token.ADD, rv.Pos, by, pos)}
+								s.heap[id] = &RdrV{Src: rv.Src, Pos: s.Arith(token.ADD, rv.Pos, by, pos), Failed: rv.Failed, Source: rv.Source}
 							}
 						}
 					}
@@ -479,12 +479,12 @@ func (ex *Exec) readerRead(st *State, r *RdrV, bufV Val, pos string) []callRes {
 	if r.Failed {
 		return []callRes{{st: st, ret: &TupleV{Vs: []Val{mkConst(0, 64, true), srcErr()}}}}
 	}
-	if ex.ReaderMayFail {
+	if ex.ReaderMayFail && r.Source {
 		// failure injection: this Read fails (nothing delivered), and so does every later one
 		st2 := st.Clone()
 		for id, v := range st2.heap {
 			if rv, ok := v.(*RdrV); ok && rv == r {
-				st2.heap[id] = &RdrV{Src: r.Src, Pos: r.Pos, Failed: true}
+				st2.heap[id] = &RdrV{Src: r.Src, Pos: r.Pos, Failed: true, Source: r.Source}
 			}
 		}
 		st2.Events = append(st2.Events, Event{Kind: "sim:read-failed", Pos: pos})
@@ -517,6 +517,37 @@ func (ex *Exec) readerRead(st *State, r *RdrV, bufV Val, pos string) []callRes {
 }
 
 func (ex *Exec) readerReadNonEmpty(st *State, r *RdrV, buf *SliceV, remaining *IntV, pos string) []callRes {
+	if ex.ReaderFrag && r.Source {
+		// a fragmenting source (C09.4): any count from 1 to min(len(buf), remaining) is delivered; when the delivery
+		// reaches the end of the data the source may hand over io.EOF together with it
+		if z, k := st.Decide("==", buf.Len, mkConst(0, 64, true)); k && z {
+			return []callRes{{st: st, ret: &TupleV{Vs: []Val{mkConst(0, 64, true), nilErr()}}}}
+		}
+		n := st.freshInt("fragn", 64, true)
+		_, hb := st.Range(buf.Len)
+		st.refineSym(n.T.Syms[0], 1, hb)
+		if !st.Assume("<=", n, buf.Len) || !st.Assume("<=", n, remaining) {
+			return nil
+		}
+		if l, h := st.Range(n); l == h {
+			n = mkConst(l, 64, true) // a one-byte buffer: exactly one byte
+		}
+		var out []callRes
+		if atEnd, k := st.Decide("==", n, remaining); !k || atEnd {
+			s2 := st.Clone()
+			if s2.Assume("==", n, remaining) {
+				if r2, ok := ex.rdrOfObj(s2, r); ok {
+					res := ex.readerCopy(s2, r2, buf, n, pos)
+					if tv, ok := res.ret.(*TupleV); ok {
+						tv.Vs[1] = &IfaceV{Unk: true, NonNil: true, Sentinel: "io.EOF"}
+					}
+					out = append(out, res)
+				}
+			}
+		}
+		out = append(out, ex.readerCopy(st, r, buf, n, pos))
+		return out
+	}
 	n := buf.Len
 	le, k := st.Decide("<=", buf.Len, remaining)
 	if k && !le {
@@ -554,7 +585,7 @@ func (ex *Exec) readerCopy(st *State, r *RdrV, buf *SliceV, n *IntV, pos string)
 	// advance reader (the reader object lives in the heap; find and update)
 	for id, v := range st.heap {
 		if rv, ok := v.(*RdrV); ok && rv == r {
-			st.heap[id] = &RdrV{Src: r.Src, Pos: st.Arith(token.ADD, r.Pos, n, pos), Failed: r.Failed}
+			st.heap[id] = &RdrV{Src: r.Src, Pos: st.Arith(token.ADD, r.Pos, n, pos), Failed: r.Failed, Source: r.Source}
 		}
 	}
 	return callRes{st: st, ret: &TupleV{Vs: []Val{n, nilErr()}}}
@@ -753,4 +784,14 @@ func (ex *Exec) sourceFailure() Val {
 		return &IfaceV{Unk: true, NonNil: true, Sentinel: ex.ReaderFailSentinel}
 	}
 	return &IfaceV{Unk: true, NonNil: true, Sentinel: "sim.source-failure"}
+}
+
+// rdrOfObj: the reader model equal to r in (a clone of) the state.
+func (ex *Exec) rdrOfObj(st *State, r *RdrV) (*RdrV, bool) {
+	for _, v := range st.heap {
+		if rv, ok := v.(*RdrV); ok && rv == r {
+			return rv, true
+		}
+	}
+	return nil, false
 }
